@@ -568,6 +568,9 @@ int KSI_TreeBuilder_close(KSI_TreeBuilder *builder) {
 	int res = KSI_UNKNOWN_ERROR;
 	KSI_TreeNode *root = NULL;
 	KSI_TreeNode *tmp = NULL;
+	KSI_TreeNode *saved[KSI_TREE_BUILDER_STACK_LEN];
+	KSI_TreeNode *joined[KSI_TREE_BUILDER_STACK_LEN];
+	size_t nofJoined = 0;
 
 	if  (builder == NULL) {
 		res = KSI_INVALID_ARGUMENT;
@@ -578,6 +581,9 @@ int KSI_TreeBuilder_close(KSI_TreeBuilder *builder) {
 
 	if (builder->rootNode == NULL) {
 		size_t i;
+
+		/* Remember the forest: closing either succeeds or leaves the builder as it was. */
+		memcpy(saved, builder->stack, sizeof(saved));
 
 		/* Finalize the forest of complete binary trees into a single tree. */
 		for (i = 0; i < KSI_TREE_BUILDER_STACK_LEN; i++) {
@@ -590,8 +596,21 @@ int KSI_TreeBuilder_close(KSI_TreeBuilder *builder) {
 				root = node;
 			} else {
 				res = KSI_TreeNode_join(builder->ctx, builder->hsr, node, root, &tmp);
-				if (res != KSI_OK) goto cleanup;
+				if (res != KSI_OK) {
+					/* Undo: release the joining nodes created so far and put the subtrees back. */
+					while (nofJoined > 0) {
+						KSI_TreeNode *j = joined[--nofJoined];
+						j->leftChild->parent = NULL;
+						j->rightChild->parent = NULL;
+						j->leftChild = NULL;
+						j->rightChild = NULL;
+						KSI_TreeNode_free(j);
+					}
+					memcpy(builder->stack, saved, sizeof(saved));
+					goto cleanup;
+				}
 
+				joined[nofJoined++] = tmp;
 				root = tmp;
 				tmp = NULL;
 			}
